@@ -711,6 +711,50 @@ def bytesCheck (pos : Nat) : List Nat → Res
   | [] => none
   | c :: rest => if c ≥ 128 then some (.nonAsciiBytes, pos + utf8Len c) else bytesCheck (pos + 1) rest
 
+def isOct (c : Nat) : Bool := 48 ≤ c && c ≤ 55
+def isHexDigit (c : Nat) : Bool := isDigitOf 16 c
+
+/-- one-character escapes of `parse_escaped_char` (`\\ \' \" \a \b \f \n \r \t \v`) and the escaped line break -/
+def isSimpleEscape (c : Nat) : Bool :=
+  c = 92 || c = 39 || c = 34 || c = 97 || c = 98 || c = 102 || c = 110 || c = 114 || c = 116 || c = 118 || c = 10
+
+/-- `parse_escaped_char` for a BYTES literal, entered after the backslash (`pos` = position after
+    it).  `.ok (n, pos')`: `n` further characters belong to the escape.  In a bytes literal `\u`, `\U`, `\N`
+    are not escapes; together with every other unrecognised character they reach the fallback arm,
+    which is the SECOND place where a non-ASCII character is refused. -/
+def bytesEscape (pos : Nat) : List Nat → Except (Kind × Nat) (Nat × Nat)
+  | [] => .error (.stringError, pos)
+  | c :: rest =>
+    if isSimpleEscape c then .ok (1, pos + 1)
+    else if isOct c then
+      -- `parse_octet`: up to two more octal digits
+      if headIs isOct rest then (if headIs isOct rest.tail then .ok (3, pos + 3) else .ok (2, pos + 2))
+      else .ok (1, pos + 1)
+    else if c = 120 then
+      -- `parse_unicode_literal(2)`: two hex digits, else `UnicodeError` located after the `x`
+      if headIs isHexDigit rest && headIs isHexDigit rest.tail then .ok (3, pos + 3)
+      else .error (.unicodeError, pos + 1)
+    else if c ≥ 128 then .error (.nonAsciiBytes, pos + utf8Len c)
+    else .ok (1, pos + 1)
+
+/-- `parse_bytes` on the whole body; `raw`: the `r` prefix (backslash is an ordinary character).
+    `fuel` ≥ length of the body. -/
+def bytesGo (fuel : Nat) (raw : Bool) (pos : Nat) (body : List Nat) : Res :=
+  match fuel with
+  | 0 => none
+  | fuel + 1 =>
+    match body with
+    | [] => none
+    | c :: rest =>
+      if c = 92 && !raw then
+        match bytesEscape (pos + 1) rest with
+        | .error e => some e
+        | .ok (n, pos') => bytesGo fuel raw pos' (rest.drop n)
+      else if c ≥ 128 then some (.nonAsciiBytes, pos + utf8Len c)
+      else bytesGo fuel raw (pos + 1) rest
+
+def bytesLit (raw : Bool) (body : List Nat) : Res := bytesGo (body.length + 1) raw 0 body
+
 /-! ## f-strings: error arms of `parse_fstring`, `parse_formatted_value`, `parse_spec`
 
   Characters of the supported alphabet are all ASCII, so byte offsets are character counts.
